@@ -16,6 +16,7 @@ UTIL = "@kafe2/fit/util/__init__.py"
 FILES = ["kafe2/fit/_base/cost.py", "kafe2/core/constraint.py", "kafe2/fit/io/file.py", "kafe2/fit/util/__init__.py", "kafe2/fit/xy/fit.py", "kafe2/fit/_base/fit.py", "kafe2/fit/xy/model.py",
          "kafe2/fit/_base/model.py", "kafe2/fit/unbinned/cost.py", "kafe2/core/fitters/nexus.py"]
 META = {
+    "lean": ['Mat.lean', 'LogDet.lean'],
     "level": "proof",
     "trusted_base": [
         "Lean 4 / Mathlib lemmas (lean/Mat.lean, lean/LogDet.lean; re-checked with `lean` in the thorough tier): V = QR symmetric, Q orthogonal, R^T x = r => (rQ).x = r^T V^-1 r; V = L L^T, L x = r => x.x = r^T V^-1 r; log det(L L^T) = 2 sum log L_ii; log|det(QR)| = sum log|R_ii| - used here as axioms over uninterpreted linear algebra",
